@@ -2,9 +2,12 @@ package props
 
 import (
 	"bytes"
+	"crypto"
 	"crypto/sha256"
+	"crypto/sha512"
 	"encoding/hex"
 	"fmt"
+	"hash"
 	"math/big"
 	"os"
 	"os/exec"
@@ -13,6 +16,7 @@ import (
 	"strings"
 	"sync"
 	"sync/atomic"
+	"time"
 
 	secp256k1 "gitlab.com/yawning/secp256k1-voi"
 	"gitlab.com/yawning/secp256k1-voi/secec"
@@ -35,6 +39,9 @@ import (
 // ColdMain executes one cold-start spec and prints "COLD <hex>"; called by
 // verifrun before anything else touches the library.
 func ColdMain(spec string) {
+	if os.Getenv("VERIF_WRAP_HASHES") == "1" {
+		wrapRegisteredHashes()
+	}
 	if strings.HasPrefix(spec, "conc|") {
 		coldConcurrent(spec)
 		return
@@ -76,10 +83,10 @@ func coldConcurrent(spec string) {
 			}()
 			ready.Add(1)
 			for goFlag.Load() == 0 {
-				// spin: a goroutine parked on a channel is woken one after the other
-				if ready.Load() < int32(G) {
-					runtime.Gosched()
-				}
+				// spin (a goroutine parked on a channel is woken one after the other), but
+				// always yield: with fewer Ps than goroutines and no asynchronous preemption
+				// a pure spin never lets the releasing goroutine run
+				runtime.Gosched()
 			}
 			outs[g] = coldExec(specs[g%len(specs)])
 		}(g)
@@ -415,7 +422,23 @@ func gtableDigest() []byte {
 // coldEnvs: process environments the cold-start children rotate through - run-time CPU feature
 // detection switched off (code that picks an implementation at run time takes its portable
 // path), an aggressive and a disabled garbage collector, a tiny memory limit.
-var coldEnvs = [][]string{nil, {"GODEBUG=cpu.all=off"}, {"GOGC=1"}, nil, {"GODEBUG=cpu.avx2=off,cpu.bmi2=off,cpu.adx=off,cpu.avx=off"}, {"GOGC=off"}, {"GOMEMLIMIT=16MiB", "GOGC=5"}, nil}
+var coldEnvs = [][]string{nil, {"GODEBUG=cpu.all=off"}, {"GOGC=1"}, {"VERIF_WRAP_HASHES=1"}, {"GODEBUG=cpu.avx2=off,cpu.bmi2=off,cpu.adx=off,cpu.avx=off"}, {"GOGC=off"}, {"GOMEMLIMIT=16MiB", "GOGC=5"},
+	{"GODEBUG=asyncpreemptoff=1"}, nil, {"GODEBUG=asyncpreemptoff=1,cpu.all=off", "VERIF_WRAP_HASHES=1"}}
+
+// opaqueHash hides every optional interface of a hash.Hash (binary marshalling above all): what an
+// importing program gets when it registers its own - correct - implementation of a hash.
+type opaqueHash struct{ h hash.Hash }
+
+func (o opaqueHash) Write(p []byte) (int, error) { return o.h.Write(p) }
+func (o opaqueHash) Sum(b []byte) []byte         { return o.h.Sum(b) }
+func (o opaqueHash) Reset()                      { o.h.Reset() }
+func (o opaqueHash) Size() int                   { return o.h.Size() }
+func (o opaqueHash) BlockSize() int              { return o.h.BlockSize() }
+
+func wrapRegisteredHashes() {
+	crypto.RegisterHash(crypto.SHA256, func() hash.Hash { return opaqueHash{sha256.New()} })
+	crypto.RegisterHash(crypto.SHA512, func() hash.Hash { return opaqueHash{sha512.New()} })
+}
 
 // coldProcs are the scheduler widths (GOMAXPROCS of the child) the cold-start
 // children are run under; 0 leaves the environment alone.
@@ -546,6 +569,7 @@ var coldConcOps = map[string][]string{
 	"C16": {"dsm", "msm", "msmv"},
 	"C18": {"sbm", "dsm", "decode", "asn1bytes", "sm", "recoverpoint"},
 	"C19": {"sbm", "sm", "msm", "dsm"},
+	"C20": {"verify", "recover", "ecdh", "sign", "schnorrverify", "schnorrsign", "h2c", "dsm", "msmv", "parsepub", "decode"},
 }
 
 // runConcurrentColdStart: n fresh processes; in each, G goroutines make the process's first
@@ -585,7 +609,20 @@ func runConcurrentColdStart(r *mon.Run, id string, n int, ops []string) {
 		if ev := coldEnvs[(i/2)%len(coldEnvs)]; ev != nil {
 			cmd.Env = append(cmd.Env, ev...)
 		}
-		outb, err := cmd.CombinedOutput()
+		envKeep := cmd.Env
+		outb, err, timedOut := runBounded(cmd, 120*time.Second)
+		if timedOut {
+			// bounded progress: the same calls take milliseconds alone.  Once more, to rule out a
+			// stalled machine; a second time-out is a verdict
+			cmd2 := exec.Command(exe, "-cold", spec)
+			cmd2.Env = envKeep
+			if _, _, again := runBounded(cmd2, 120*time.Second); again {
+				w.Fail(lc+"/cold-start-concurrent/no-progress", fmt.Sprintf("%d goroutines making the first library calls of a fresh process did not finish within 120 s, twice (environment %v); each call alone takes milliseconds", G, envKeep[len(os.Environ()):]), "spec", spec)
+			} else {
+				r.Note("a concurrent cold-start child timed out once and finished when repeated")
+			}
+			return
+		}
 		var got []string
 		for _, l := range strings.Split(string(outb), "\n") {
 			if strings.HasPrefix(l, "COLD ") {
@@ -614,4 +651,23 @@ func runConcurrentColdStart(r *mon.Run, id string, n int, ops []string) {
 			}
 		}
 	})
+}
+
+// runBounded runs cmd and kills it after d.
+func runBounded(cmd *exec.Cmd, d time.Duration) (out []byte, err error, timedOut bool) {
+	var buf bytes.Buffer
+	cmd.Stdout, cmd.Stderr = &buf, &buf
+	if err = cmd.Start(); err != nil {
+		return nil, err, false
+	}
+	done := make(chan error, 1)
+	go func() { done <- cmd.Wait() }()
+	select {
+	case err = <-done:
+		return buf.Bytes(), err, false
+	case <-time.After(d):
+		_ = cmd.Process.Kill()
+		<-done
+		return buf.Bytes(), fmt.Errorf("killed after %v", d), true
+	}
 }
